@@ -619,6 +619,9 @@ def run_obligation(ob, seed=0, timeout_scale=1.0):
         seen_assump = set()
         sample_claims = []
         for pi_, p in enumerate(all_paths):
+            if len(res['violations']) >= 2:
+                res['notes'].append("stopped after 2 reproduced violations")
+                break
             c = p.c
             cons = c.all_constraints()
             for _, text in c.assumptions:
@@ -657,6 +660,8 @@ def run_obligation(ob, seed=0, timeout_scale=1.0):
                         for nm, _ in grp:
                             pre[nm] = ('unsat', round(secs / len(grp), 3), eng)
             for name, claim in p.sess.claims:
+                if len(res['violations']) >= 2:
+                    break
                 sc = z3.simplify(claim)
                 if name in pre:
                     vd, secs, eng = pre[name]
